@@ -67,3 +67,28 @@ func HarnessC13DiagNil() {
 	sortDiagnostics(bag.diagnostics)
 	verifrt.Assert(bag.HasErrors(), "HasErrors is false although an error diagnostic was added")
 }
+
+// HarnessC13Highlight: the snippet colouriser the emitter runs on every source line it prints is total: for every
+// line of up to N characters (N = 4 quick, 5 thorough) over the characters that drive its scanner - both quote kinds,
+// backslash, &, a letter, a digit, '.', '/', '_', blank - Highlight returns without a run-time error and the token
+// texts concatenate to exactly the line (nothing lost, nothing duplicated).  Unclosed literals, a trailing backslash
+// and "&'" are in the space.
+func HarnessC13Highlight() {
+	alphabet := []byte{'"', '\'', '\\', '&', 'a', '1', '.', '/', '_', ' '}
+	maxn := 4
+	if verifrt.Thorough() {
+		maxn = 5
+	}
+	n := verifrt.Choice("n", maxn+1)
+	b := make([]byte, n)
+	for i := 0; i < n; i++ {
+		b[i] = alphabet[verifrt.Choice("c"+string(rune('0'+i)), len(alphabet))]
+	}
+	line := string(b)
+	toks := NewSyntaxHighlighter(true).Highlight(line)
+	got := ""
+	for _, t := range toks {
+		got += t.Text
+	}
+	verifrt.Assert(got == line, "the highlighted tokens do not add up to the source line")
+}
